@@ -246,11 +246,11 @@ def run(ctx):
     def after(sim, obs):
         obs[0].check(sim, final=True)
 
-    run_histories(ctx, res, ctx.n(2400, 60000), mk, after=after,
+    run_histories(ctx, res, ctx.n(2400, 30000), mk, after=after,
                   nontrivial=_nontrivial, salt='c03')
 
     rng = ctx.rng('burst')
-    for i in range(ctx.n(16, 160)):
+    for i in range(ctx.n(16, 64)):
         burst_history(ctx, res, rng, i)
         res.evaluations += 1
         if len(res.violations) > 40:
@@ -260,7 +260,7 @@ def run(ctx):
     saved = c07.judge
     c07.judge = judge_exec
     try:
-        for i in range(ctx.n(480, 9000)):
+        for i in range(ctx.n(480, 6000)):
             case = gen_exec_case(rng, 'NOOP' if i % 8 == 7 else 'POPEN')
             c07.run_case(ctx, res, case, i)
             if len(res.violations) > 40:
